@@ -28,7 +28,7 @@ MANIFEST = dict(
          "containers skip_empty_arrays drops, as Python compares values (pyEq: class tags and dict order ignored); this is the "
          "full statement C11_roundtrip_stmt plus the hypothesis depth <= 111. C11_roundtrip_ordered_partial gives the decoded value "
          "exactly: the tree whose pair-layout records are listed in column (first-appearance) order (pairOrder); "
-         "C11_roundtrip_colorder_partial / C11_roundtrip_partial: exact equality, dict order included, whenever the records "
+         "C11_options_agree_all: no option changes the decoded value. C11_roundtrip_colorder_partial / C11_roundtrip_partial: exact equality, dict order included, whenever the records "
          "already list their keys in column order, in particular with the pair layout off. C11_pair_record: one padded record "
          "is a JSON text of the column-ordered record for any column widths. C11_roundtrip_stmt itself is kept visible and "
          "proved FALSE (C11_roundtrip_stmt_false) by the counter-example of the open finding C11-e (C11_depth_cex: 112 nested "
